@@ -15,7 +15,8 @@ from ..labels import canon, csort
 from . import common
 
 EXTRA_OPS = {"hold", "twin"}
-EXPECTED_PROBES = ["held_object_older_than_5_mutations", "mutator_ran_with_empty_edge_present"]
+EXPECTED_PROBES = ["held_object_older_than_5_mutations", "mutator_ran_with_empty_edge_present",
+                   "filterby_threshold_within_rounding_of_a_value"]
 
 HOLD_SPECS_U = ["nodes", "edges", "nodes.degree", "nodes.degree(order=1)", "nodes.degree(weight=w)", "edges.size",
                 "edges.order", "edges.size(degree=1)", "nodes.attrs(color)", "edges.attrs(w,0)",
@@ -30,6 +31,7 @@ def configure(cfg, r, tier):
     cfg["faults"] = False
     cfg["counts"] = True
     cfg["numeric_attrs"] = True
+    cfg["float_weight_key"] = True  # an extra attribute "fw" with values whose sums are inexact
     cfg["steps"] = r.randint(12, 45) if tier == "quick" else r.randint(30, 120)
     cfg["p_hold"] = r.choice([0.06, 0.1, 0.15])
     cfg["p_twin"] = 0.03
@@ -220,7 +222,7 @@ def check_formats(w, rec, act, label, st, expected, ids):
 
 # ---------------------------------------------------------------------------
 def families(kind):
-    base = ["stats", "formats", "multi", "filterby", "filterby_attr", "sum_rule", "isolates_empty"]
+    base = ["stats", "formats", "multi", "filterby", "filterby_attr", "filterby_self", "sum_rule", "isolates_empty"]
     if kind != "DH":
         base += ["neighbors", "lookup", "maximal", "duplicates"]
     return base
@@ -402,6 +404,58 @@ def fam_filterby(sim, w, rec, act, r):
                    f"{side}.filterby({stat!r}, {x}, {mode!r}) = {got!r}, expected {exp!r}")
     except Exception as ex:  # noqa
         w.find({"C06"}, "stat_raised", dict(rec, op="filterby:" + mode), act.kind, f"{type(ex).__name__}: {ex}")
+
+
+def fam_filterby_self(sim, w, rec, act, r):
+    """filterby against the *same statistic's own values* (no model involved, so float-valued
+    statistics can be used): thresholds are taken from the values present, one ulp above or below
+    them, and from sums that are not exactly representable (0.1 + 0.2 vs 0.3)."""
+    import math
+    obj = act.sut
+    side = r.choice(["nodes", "edges"])
+    view = getattr(obj, side)
+    fkey = r.choice(["fw", "fw", "w", "weight"])
+    if side == "nodes":
+        cands = [("attrs", (fkey, 0.3), {}), ("degree", (), {"weight": "fw"}), ("degree", (), {"weight": "fw", "order": r.choice([1, 2])}),
+                 ("average_neighbor_degree", (), {}), ("clustering_coefficient", (), {}), ("local_clustering_coefficient", (), {})]
+        if act.kind == "DH":
+            cands = cands[:1] + [("degree", (), {}), ("in_degree", (), {}), ("out_degree", (), {})]
+    else:
+        cands = [("attrs", (fkey, 0.3), {}), ("attrs", (fkey,), {}), ("size", (), {}), ("order", (), {})]
+    name, args, kw = r.choice(cands)
+    label = f"{side}.{name}({', '.join([repr(a) for a in args] + [f'{k}={v!r}' for k, v in kw.items()])})"
+    try:
+        if not hasattr(view, name):
+            return
+        st = getattr(view, name)(*args, **kw)
+        vals = st.asdict()
+    except Exception:
+        return  # (what the statistic itself does is decided elsewhere)
+    nums = [v for v in vals.values() if isinstance(v, (int, float)) and not isinstance(v, bool) and v == v]
+    if len(nums) != len(vals) or not nums:
+        return
+    base = r.choice(nums + [0.3, 0.6])
+    x = r.choice([base, base, math.nextafter(float(base), math.inf), math.nextafter(float(base), -math.inf),
+                  base * (1 + 1e-12), base + 1e-15])
+    mode = r.choice(list(MODES) + ["between"])
+    ids = list(view)
+    try:
+        if mode == "between":
+            lo, hi = sorted([x, r.choice(nums)])
+            got = list(view.filterby(st, (lo, hi), "between"))
+            exp = [i for i in ids if lo <= vals[i] <= hi]
+        else:
+            got = list(view.filterby(st, x, mode))
+            exp = [i for i in ids if MODES[mode](vals[i], x)]
+        w.stats["filterby_self:" + ("float" if any(isinstance(v, float) for v in nums) else "int")] += 1
+        if mode in ("eq", "neq") and any(v != x and math.isclose(v, x, rel_tol=1e-6) for v in nums):
+            w.probes["filterby_threshold_within_rounding_of_a_value"] += 1
+        if got != exp:
+            w.find({"C06"}, "filterby_disagrees_with_stat_values", dict(rec, op="filterby_self:" + mode), act.kind,
+                   f"{label}: filterby(stat, {x!r}, {mode!r}) = {got!r}, but the statistic's own values select {exp!r} "
+                   f"(values {dict(list(vals.items())[:8])!r})")
+    except Exception as ex:  # noqa
+        w.find({"C06"}, "stat_raised", dict(rec, op="filterby_self:" + mode), act.kind, f"{label}: {type(ex).__name__}: {ex}")
 
 
 def fam_filterby_attr(sim, w, rec, act, r):
